@@ -87,14 +87,11 @@ func hexImportWithSize(re *regexp.Regexp, input string) (*BMNumber, error) {
 		}
 
 		newNumber := BMNumber{}
-		newNumber.number = make([]byte, hexSize)
+		// hexSize is a number of bits: the number takes hexSize/8 bytes
+		newNumber.number = make([]byte, hexSize/8)
 
 		for i := 0; i < len(decoded); i++ {
 			newNumber.number[i] = decoded[len(decoded)-1-i]
-		}
-
-		for i := len(decoded); i < hexSize; i++ {
-			newNumber.number[i] = 0
 		}
 
 		newNumber.bits = hexSize
